@@ -151,11 +151,36 @@ def X_incarnation_lifecycle(ctx):
         w = [e for e in p.events if e.kind == 'assign' and e.d['place'][0] == 'field' and e.d['place'][2].endswith('IncarnationDb.version')]
         cl = [e for e in p.events if e.kind == 'call' and e.d['callee'].endswith('::clear') and mentions_field(e.d['args'][0], 'IncarnationDb.read_set')]
         bl = [e for e in p.events if e.kind == 'call' and e.d['callee'].endswith('::clear') and mentions_field(e.d['args'][0], 'IncarnationDb.blocking_txs')]
-        if w and w[0].d['value'] == ('arg', 2) and cl and bl:
+        if w and w[0].d['value'] == ('arg', 2):
             okv = True
     ctx.ob('X6', b, 'begin-sets-version-and-clears-scratch', okv, '', site=b.loc(b.b['lo']),
-           what='reads resolve `..version.txid` and publish under version; stale scratch (read set, blockers) from a previous incarnation must not leak')
+           what='reads resolve `..version.txid` and publish under version')
     fi = ctx.method("incarnation_db::IncarnationDb<'a, DB>", 'finish_incarnation')
+    di = ctx.method("incarnation_db::IncarnationDb<'a, DB>", 'discard_incarnation')
+
+    def resets(fn, field):
+        """every returning path of fn leaves the scratch field empty: clear(), mem::take, or a fresh value stored"""
+        ps = [p for p in feasible(fn.paths()) if p.end == 'return']
+        if not ps:
+            return False
+        for p in ps:
+            hit = False
+            for e in p.events:
+                if e.kind == 'call' and (e.d['callee'].endswith('::clear') or 'mem::take' in e.d['callee'] or 'mem::replace' in e.d['callee']) and e.d['args'] \
+                        and mentions_field(e.d['args'][0], 'IncarnationDb.' + field):
+                    hit = True
+                if e.kind == 'assign' and e.d['place'][0] == 'field' and e.d['place'][2].endswith('IncarnationDb.' + field) and \
+                        (e.d['value'] == ('const', 'false') or (e.d['value'][0] == 'call' and (e.d['value'][1].endswith('::new') or e.d['value'][1].endswith('::default')) and not e.d['value'][2])):
+                    hit = True
+            if not hit:
+                return False
+        return True
+    leaks = []
+    for field in ('read_set', 'account_snapshots', 'blocking_txs', 'blocked_by_beneficiary'):
+        if not (resets(b, field) or (resets(fi, field) and resets(di, field))):
+            leaks.append(field)
+    ctx.ob('X6', b, 'scratch-reset-between-incarnations', not leaks, 'not reset: ' + ', '.join(leaks) if leaks else '', site=b.loc(b.b['lo']),
+           what='each per-incarnation scratch field (read set, account snapshots, blockers, beneficiary-blocked flag) is emptied between two incarnations: by begin_incarnation, or by both finish_incarnation and discard_incarnation; a stale snapshot would suppress the publication of a changed account, stale reads/blockers would be validated or waited for')
     okf = False
     for p in feasible(fi.paths()):
         ret = [e for e in p.events if e.kind == 'ret'][0].d['value']
@@ -164,13 +189,11 @@ def X_incarnation_lifecycle(ctx):
             okf = has_call(fl['read_set'], 'mem::take') and mentions_field(fl['read_set'], 'IncarnationDb.read_set') and has_call(fl['write_set'], 'publish_writes') \
                 and has_call(fl['blocking_txs'], 'mem::take') and mentions_field(fl['blocking_txs'], 'IncarnationDb.blocking_txs')
     ctx.ob('X6', fi, 'finish-returns-own-read-write-and-blocker-sets', okf, '', site=fi.loc(fi.b['lo']))
-    di = ctx.method("incarnation_db::IncarnationDb<'a, DB>", 'discard_incarnation')
     okd = False
     for p in feasible(di.paths()):
         ret = [e for e in p.events if e.kind == 'ret'][0].d['value']
         pw = calls(p, 'publish_writes')
-        cl = [e for e in p.events if e.kind == 'call' and e.d['callee'].endswith('::clear') and mentions_field(e.d['args'][0], 'IncarnationDb.read_set')]
-        if ret[0] == 'agg' and not pw and cl:
+        if ret[0] == 'agg' and not pw:
             fl = dict(zip(ret[4].split(','), ret[3]))
             okd = has_call(fl['blocking_txs'], 'mem::take') and mentions_field(fl['blocking_txs'], 'IncarnationDb.blocking_txs') and has_call(fl['write_set'], '::new')
     ctx.ob('X6', di, 'discard-publishes-nothing-and-keeps-blockers', okd, '', site=di.loc(di.b['lo']),
